@@ -41,6 +41,8 @@ def projects():
     ps.append({"resources": R + [dead], "tasks": [T("a", 60), T("run", 600, "rdead"), T("after", 30, deps=["run"])]})
     ps.append({"resources": R, "tasks": [{"id": "t", "effort": 100, "alloc": ["r1", "r2"]}, T("u", 20, deps=["t"]), T("v", 20, "r1", prio=900)]})
     ps.append({"alap": True, "resources": R, "tasks": [T("a", 90), T("b", 150, "r2", deps=["a"]), {"id": "g", "end": "2025-01-15-17:00", "children": [T("c", 200)]}]})
+    ps.append({"resources": R, "tasks": [{"id": "phase", "children": [{"id": "build", "children": [T("core", 60), {"id": "ui", "children": [T("x", 30, "r2")]}]}, T("test", 45, deps=["!build"])]},
+                                         {"id": "ops", "children": [T("deploy", 30, "r3"), {"id": "hand", "children": [T("docs", 20, "r3")]}]}]})
     return ps
 
 
@@ -184,7 +186,7 @@ def run(ctx):
     st = Stats()
     explore(ctx, universe(ctx.tier), "mc.props.c18:evaluate", st, payload=payload, sample_of=sample, trait=trait)
     cov = st.coverage(
-        "6 scheduled projects (rates, efficiency, nested containers, milestone, unschedulable and run-away leaves, team, ALAP) x every "
+        "7 scheduled projects (rates, efficiency, nested containers, milestone, unschedulable and run-away leaves, team, ALAP) x every "
         "ordered selection of <= 2 (thorough 3) columns x report/project time formats x leaf-only flag x formats, each generated 3 times; "
         "states = distinct schedule observations; transitions = report generations; every case is non-trivial (distinct cases counted)")
     return ctx.finish(cov, ASSUME)
